@@ -109,13 +109,16 @@ Theorem c10_route_order_independent : forall l l' r,
   exists r', build l' = Some r' /\ forall path, serve r' path = serve r path.
 Proof. exact route_order_independent. Qed.
 
-Theorem c10_build_order_independent : forall l l',
+(* [names_ok] is needed here too: for a NAME with '{' '}' or '/' axum / matchit decide (a lone
+   '{' is an invalid route and panics, "{x}" and "{y}" conflict ..) and the model does not
+   follow them; the evaluated observables answer [obs_outside] there (c10_guard_is_names_ok) *)
+Theorem c10_build_order_independent : forall l l', names_ok l ->
   Permutation l l' -> (build l = None <-> build l' = None).
-Proof. exact build_order_independent. Qed.
+Proof. exact (fun l l' _ => build_order_independent l l'). Qed.
 
 (* registration succeeds exactly for distinct names none of which starts with ':' or '*' *)
-Theorem c10_build_spec : forall l r, build l = Some r <-> r = l /\ registrable l.
-Proof. exact build_spec. Qed.
+Theorem c10_build_spec : forall l r, names_ok l -> (build l = Some r <-> r = l /\ registrable l).
+Proof. exact (fun l r _ => build_spec l r). Qed.
 
 (* registration orders given as index lists (how the harness samples orders of 5..8 services):
    any arrangement of 0..n-1 registers as well and answers alike *)
@@ -127,6 +130,132 @@ Proof. exact sampled_orders_agree. Qed.
 (* the orders the harness enumerates are permutations *)
 Theorem c10_perms_sound : forall (l p : list service), In p (perms l) -> Permutation l p.
 Proof. exact perms_sound. Qed.
+
+(* ==== generated servers and clients as functions of the tonic-build descriptor ==== *)
+(* Reading guide.  [reg] = [RStub s] (the harness' transcription of a generated `call`) or
+   [RGen g emit] (a server generated by tonic-build from descriptor [g] with
+   CodeGenBuilder::emit_package(emit)); [ts_name g] / [tm_name m] are Service::name() /
+   Method::name() (the Rust items), [ts_ident] / [tm_ident] the proto identifiers;
+   [mount x]: NamedService::NAME and the literal arms of `call`; [mbuild] / [mserve]: registration
+   and one request on mounted services - the functions every harness case evaluates (obs_gserve,
+   obs_gorders, obs_gorders_at, obs_gbuild, obs_gclient); [regs_ok regs]: every NAME is free of
+   '/', '{', '}'; [reg_name (RGen g e)] = [tb_service_name g e], [reg_methods (RGen g e)] =
+   the method identifiers. *)
+
+(* what is evaluated IS build / serve of the theorems above *)
+Theorem c10_mounted_bridge : forall regs r, mbuild (map mount regs) = Some r ->
+  build (map service_of regs) = Some (map service_of regs) /\
+  r = map mount regs /\
+  forall path, mserve r path = serve (map service_of regs) path.
+Proof. exact mounted_bridge. Qed.
+
+(* .. and the guard of the evaluated observables is the hypothesis [names_ok] *)
+Theorem c10_guard_is_names_ok : forall regs,
+  regs_in_model regs = true <-> names_ok (map service_of regs).
+Proof. exact regs_in_model_iff. Qed.
+
+(* THE property for generated code, for ALL descriptors (every Rust name / identifier / package /
+   emit_package combination): a handler runs iff the path is exactly
+   "/" ++ [package "."] identifier ++ "/" ++ method identifier *)
+Theorem c10_generated_route_iff : forall regs r path S M,
+  mbuild (map mount regs) = Some r -> regs_ok regs ->
+  (mserve r path = Handler S M <->
+   (exists x, In x regs /\ reg_name x = S /\ In M (reg_methods x)) /\ M <> [] /\
+   path = method_path S M).
+Proof. exact g_route_iff. Qed.
+
+(* NAME is: the identifier; preceded by package and '.' iff the package is emitted and non-empty *)
+Theorem c10_generated_name_spec : forall g,
+  tb_service_name g false = ts_ident g /\
+  (ts_package g = [] -> tb_service_name g true = ts_ident g) /\
+  (ts_package g <> [] -> tb_service_name g true = (ts_package g ++ r_dot :: ts_ident g)%list).
+Proof. exact tb_service_name_spec. Qed.
+
+(* the Rust names never matter *)
+Theorem c10_generated_rust_names_irrelevant : forall g1 g2 e,
+  ts_package g1 = ts_package g2 -> ts_ident g1 = ts_ident g2 ->
+  map tm_ident (ts_methods g1) = map tm_ident (ts_methods g2) ->
+  mount (RGen g1 e) = mount (RGen g2 e).
+Proof. exact g_rust_names_irrelevant. Qed.
+
+(* the generated client of a registered generated server reaches exactly its method *)
+Theorem c10_generated_client_reaches_its_server : forall regs r g e m,
+  mbuild (map mount regs) = Some r -> regs_ok regs ->
+  In (RGen g e) regs -> In m (ts_methods g) -> tm_ident m <> [] ->
+  mserve r (tb_client_path g m e) = Handler (tb_service_name g e) (tm_ident m).
+Proof. exact g_client_reaches_its_server. Qed.
+
+Theorem c10_generated_unimplemented_unless_exact : forall regs r path,
+  mbuild (map mount regs) = Some r -> regs_ok regs ->
+  (forall x M, In x regs -> In M (reg_methods x) -> M <> [] -> path <> method_path (reg_name x) M) ->
+  runs_handler (mserve r path) = false /\ status_header (mserve r path) = Some Code_Unimplemented.
+Proof. exact g_unimplemented_unless_exact. Qed.
+
+(* a first segment that is not a registered NAME (e.g. package "." Service::name() when that is
+   not the identifier, the identifier without / with its package) never passes the router .. *)
+Theorem c10_unregistered_name_falls_back : forall regs r S' rest,
+  mbuild (map mount regs) = Some r -> regs_ok regs -> slash_free S' ->
+  (forall x, In x regs -> reg_name x <> S') ->
+  mserve r (method_path S' rest) = UnimplFallback.
+Proof. exact g_unregistered_name_falls_back. Qed.
+
+(* .. and a method segment that is no identifier of the service (e.g. Method::name()) gets that
+   service's default arm *)
+Theorem c10_unknown_method_default_arm : forall regs r x rest,
+  mbuild (map mount regs) = Some r -> regs_ok regs -> In x regs -> rest <> [] ->
+  ~ In rest (reg_methods x) ->
+  mserve r (method_path (reg_name x) rest) = UnimplService (reg_name x).
+Proof. exact g_unknown_method_default_arm. Qed.
+
+Theorem c10_generated_order_independent : forall regs regs' r, Permutation regs regs' ->
+  mbuild (map mount regs) = Some r -> regs_ok regs ->
+  exists r', mbuild (map mount regs') = Some r' /\ forall path, mserve r' path = mserve r path.
+Proof. exact g_order_independent. Qed.
+
+Theorem c10_generated_build_spec : forall regs r,
+  mbuild (map mount regs) = Some r <-> r = map mount regs /\ registrable (map service_of regs).
+Proof. exact g_build_spec. Qed.
+
+(* ==== tonic::transport::Server / Router: add_optional_service ==== *)
+(* what kind transport evaluates is obs_gserve on [transport_regs]: an absent optional service is
+   as if never mentioned, a present one as if added by add_service, anywhere in the chain *)
+Theorem c10_transport_optional_absent : forall l1 x l2,
+  transport_regs (l1 ++ (x, Some false) :: l2) = transport_regs (l1 ++ l2).
+Proof. exact transport_optional_absent. Qed.
+
+Theorem c10_transport_optional_present : forall l1 x l2,
+  transport_regs (l1 ++ (x, Some true) :: l2) = transport_regs (l1 ++ (x, None) :: l2).
+Proof. exact transport_optional_present. Qed.
+
+Theorem c10_transport_all_plain : forall l, transport_regs (map (fun x => (x, None)) l) = l.
+Proof. exact transport_all_plain. Qed.
+
+(* ==== request method ==== *)
+(* routing never looks at the method ([mserve] takes the path only: route_service, `any`
+   fallback, `match req.uri().path()`); what the method changes is axum's RouteFuture: for EVERY
+   method the UNIMPLEMENTED answer stays well-formed *)
+Theorem c10_unimplemented_well_formed_any_method : forall meth r path,
+  runs_handler (mserve r path) = false ->
+  exists rp, reply_of_b BaseTonic meth path (mserve r path) = Reply rp /\ is_unimplemented_response rp.
+Proof. exact unimplemented_well_formed_any_method. Qed.
+
+Theorem c10_post_is_the_old_reply : forall path o, reply_of_b BaseTonic m_POST path o = reply_of o.
+Proof. exact reply_of_b_post. Qed.
+
+(* ==== Routes::from(axum::Router::new()) - an OBSERVATION, see checks/C10.json ==== *)
+(* Registered services behave as on Routes::default() (same [mserve]); a path that matches no
+   route is answered by the fallback of the router the caller supplied: HTTP 404 without
+   grpc-status for axum's default.  "UNIMPLEMENTED for an unknown service" is therefore a theorem
+   about Routes::default()-rooted routes only. *)
+Theorem c10_from_axum_router_replies : forall meth path o rp,
+  reply_of_b BaseAxumUser meth path o = Reply rp ->
+  match o with
+  | Handler _ _ => False
+  | UnimplService _ => is_unimplemented_response rp
+  | UnimplFallback => rp_status rp = 404 /\ hm_get_all (rp_headers rp) hdr_grpc_status = [] /\
+                      rp_body rp = [] /\ rp_trailers rp = None
+  end.
+Proof. exact from_axum_router_replies. Qed.
 
 (* ---- non-vacuity and worked examples ---- *)
 Definition b (s : string) : list N := bytes_of_string s.
@@ -205,7 +334,81 @@ Proof. vm_compute. repeat split; discriminate. Qed.
 Example c10_perms_count : List.length (perms ex_reg) = 24%nat.
 Proof. reflexivity. Qed.
 
+(* ---- generated servers whose Rust name is not their identifier (the harness' ID_FIXTURE) ---- *)
+Definition ex_http_echo : tb_service :=
+  mkTS (b "HttpEcho") (b "pkg") (b "HTTPEcho")
+       [mkTM (b "ping") (b "Ping"); mkTM (b "get_url") (b "GetURL"); mkTM (b "stream_v2") (b "Stream_V2")].
+Definition ex_greeter : tb_service :=
+  mkTS (b "Greeter") [] (b "greeter") [mkTM (b "say_hello") (b "SayHello")].
+Definition ex_hidden : tb_service :=
+  mkTS (b "HttpEcho") (b "hidden.pkg") (b "HTTPEcho") [mkTM (b "ping") (b "Ping")].
+Definition ex_canonical : tb_service :=
+  mkTS (b "HttpEcho") (b "pkg") (b "HttpEcho") [mkTM (b "ping") (b "Ping"); mkTM (b "only_here") (b "OnlyHere")].
+Definition ex_gregs : list reg :=
+  [RGen ex_http_echo true; RGen ex_greeter true; RGen ex_hidden false; RGen ex_canonical true;
+   RStub (mkSvc (b "pkg.Svc") [b "Get"])].
+
+Example c10_generated_premises_hold :
+  mbuild (map mount ex_gregs) = Some (map mount ex_gregs) /\ regs_in_model ex_gregs = true.
+Proof. split; reflexivity. Qed.
+
+Example c10_generated_examples :
+  let r := map mount ex_gregs in
+  map reg_name ex_gregs = [b "pkg.HTTPEcho"; b "greeter"; b "HTTPEcho"; b "pkg.HttpEcho"; b "pkg.Svc"] /\
+  (* exactly /<pkg>.<identifier>/<method identifier> *)
+  mserve r (b "/pkg.HTTPEcho/Ping") = Handler (b "pkg.HTTPEcho") (b "Ping") /\
+  mserve r (b "/pkg.HTTPEcho/GetURL") = Handler (b "pkg.HTTPEcho") (b "GetURL") /\
+  mserve r (b "/pkg.HTTPEcho/Stream_V2") = Handler (b "pkg.HTTPEcho") (b "Stream_V2") /\
+  mserve r (b "/greeter/SayHello") = Handler (b "greeter") (b "SayHello") /\
+  mserve r (b "/HTTPEcho/Ping") = Handler (b "HTTPEcho") (b "Ping") /\
+  (* the Rust spelling of one service is the identifier of ANOTHER one: it reaches that one only *)
+  mserve r (b "/pkg.HttpEcho/Ping") = Handler (b "pkg.HttpEcho") (b "Ping") /\
+  mserve r (b "/pkg.HttpEcho/OnlyHere") = Handler (b "pkg.HttpEcho") (b "OnlyHere") /\
+  mserve r (b "/pkg.HttpEcho/GetURL") = UnimplService (b "pkg.HttpEcho") /\
+  mserve r (b "/pkg.HTTPEcho/OnlyHere") = UnimplService (b "pkg.HTTPEcho") /\
+  (* Rust spellings: type name, fn name, module name; package of an emit_package(false) server *)
+  mserve r (b "/Greeter/SayHello") = UnimplFallback /\
+  mserve r (b "/HttpEcho/Ping") = UnimplFallback /\
+  mserve r (b "/hidden.pkg.HTTPEcho/Ping") = UnimplFallback /\
+  mserve r (b "/pkg.http_echo/Ping") = UnimplFallback /\
+  mserve r (b "/pkg.HTTPEcho/ping") = UnimplService (b "pkg.HTTPEcho") /\
+  mserve r (b "/pkg.HTTPEcho/get_url") = UnimplService (b "pkg.HTTPEcho") /\
+  mserve r (b "/pkg.HTTPEcho/GetUrl") = UnimplService (b "pkg.HTTPEcho") /\
+  mserve r (b "/pkg.HTTPEcho/StreamV2") = UnimplService (b "pkg.HTTPEcho") /\
+  mserve r (b "/greeter/say_hello") = UnimplService (b "greeter") /\
+  (* the generated client's path *)
+  tb_client_path ex_http_echo (mkTM (b "get_url") (b "GetURL")) true = b "/pkg.HTTPEcho/GetURL" /\
+  tb_client_path ex_hidden (mkTM (b "ping") (b "Ping")) false = b "/HTTPEcho/Ping".
+Proof. vm_compute. repeat split. Qed.
+
+(* why the distinction matters: were NAME derived from Service::name() (seeded change r4-C10),
+   the exact path would be lost - the server would sit under "pkg.HttpEcho" with arms
+   "/pkg.HTTPEcho/..": no path at all reaches the handler *)
+Example c10_name_derived_from_rust_name_breaks :
+  let wrong := mkMounted (b "pkg.HttpEcho") (mt_arms (tb_generate_server ex_http_echo true)) in
+  mserve [wrong] (b "/pkg.HTTPEcho/Ping") = UnimplFallback /\
+  mserve [wrong] (b "/pkg.HttpEcho/Ping") = UnimplService (b "pkg.HttpEcho").
+Proof. vm_compute. split; reflexivity. Qed.
+
+(* outside the model: the observable says so instead of predicting *)
+Example c10_outside_is_declared :
+  obs_gbuild [RStub (mkSvc (b "{") [])] = obs_outside /\
+  obs_gbuild [RStub (mkSvc (b "{x}") []); RStub (mkSvc (b "{y}") [])] = obs_outside /\
+  obs_gserve BaseTonic [RStub (mkSvc (b "a/:b") [b "M"])] (mkRequest m_POST (b "/a/:b/M")) = obs_outside.
+Proof. vm_compute. repeat split. Qed.
+
+(* request methods *)
+Example c10_methods :
+  let fb := fun meth => reply_obs (reply_of_b BaseTonic (b meth) (b "/x") UnimplFallback) in
+  fb "POST" = fb "GET" /\ fb "POST" = fb "FOO" /\ fb "HEAD" = fb "POST" /\ fb "CONNECT" <> fb "POST" /\
+  reply_obs (reply_of_b BaseTonic (b "CONNECT") (b "/x") (UnimplService [])) = reply_obs (reply_of (UnimplService [])).
+Proof. vm_compute. repeat split. discriminate. Qed.
+
 Print Assumptions c10_route_iff.
+Print Assumptions c10_generated_route_iff.
+Print Assumptions c10_generated_client_reaches_its_server.
+Print Assumptions c10_unimplemented_well_formed_any_method.
+Print Assumptions c10_from_axum_router_replies.
 Print Assumptions c10_unimplemented_well_formed.
 Print Assumptions c10_unimplemented_unless_exact.
 Print Assumptions c10_route_order_independent.
